@@ -36,7 +36,7 @@ def Conforming (gen : Bytes → Bytes) : Srv → List Ev → Prop
 def nickName (n : Bytes) : Prop := n ≠ [] ∧ ∀ b ∈ n, 33 < b ∧ b < 127 ∧ b ≠ 58 ∧ b ≠ 64
 
 def evNames : Ev → List Bytes
-  | .s433 r => [r] | .s001 n => [n] | .sNick n => [n] | .sOther f t => [f, t]
+  | .s433 r => [r] | .s001 n _ => [n] | .sNick n => [n] | .sOther f t => [f, t]
 
 /-- the client starts knowing the nick it asks for; tracking on or off -/
 def startClient (nick : Bytes) (gen : Bytes → Bytes) (ext : UnicodeExt) (track : Bool) : Client :=
